@@ -2,8 +2,11 @@ package vc
 
 import (
 	"fmt"
+	"go/types"
 	"sort"
 	"strings"
+
+	"govc/spec"
 
 	"golang.org/x/tools/go/ssa"
 
@@ -27,7 +30,7 @@ func (e *Engine) AxiomTerms() (terms []*smt.Term, srcs []string, err error) {
 		if er != nil {
 			return nil, nil, fmt.Errorf("%s:%d: axiom: %v", ax.File, ax.Line, er)
 		}
-		terms = append(terms, v.T)
+		terms = append(terms, withAutoPattern(v.T))
 		srcs = append(srcs, ax.Src)
 	}
 	return
@@ -173,3 +176,111 @@ func (e *Engine) TrustedUsed() []string {
 }
 
 // StructuralObligations: placeholder extended in structural.go
+
+// InitContracts synthesises, for every package that declares `globalinv` clauses, a contract for the package
+// initialiser whose postconditions are those invariants.
+func (e *Engine) InitContracts() []*Contract {
+	byPkg := map[*types.Package][]*GlobalInv{}
+	var order []*types.Package
+	for _, gi := range e.GlobalInvs {
+		if gi.Pkg == nil {
+			continue
+		}
+		if _, ok := byPkg[gi.Pkg]; !ok {
+			order = append(order, gi.Pkg)
+		}
+		byPkg[gi.Pkg] = append(byPkg[gi.Pkg], gi)
+	}
+	var out []*Contract
+	for _, p := range order {
+		sp := e.Prog.Package(p)
+		if sp == nil {
+			continue
+		}
+		initFn := sp.Func("init")
+		if initFn == nil || len(initFn.Blocks) == 0 {
+			continue
+		}
+		fc := &spec.FuncContract{Name: "init", Loops: map[int]*spec.LoopSpec{}, File: byPkg[p][0].File, Line: byPkg[p][0].Line}
+		propSet := map[string]bool{}
+		for _, gi := range byPkg[p] {
+			cl := *gi.Clause
+			if cl.Label == "" {
+				cl.Label = "globalinv"
+			}
+			fc.Ensures = append(fc.Ensures, &cl)
+			for _, pr := range gi.Props {
+				propSet[pr] = true
+			}
+		}
+		for pr := range propSet {
+			fc.Props = append(fc.Props, pr)
+		}
+		sort.Strings(fc.Props)
+		out = append(out, &Contract{FuncContract: fc, Fn: initFn, SpecPkg: p, PkgPath: p.Path(), IsInit: true})
+	}
+	return out
+}
+
+// withAutoPattern adds an instantiation pattern to a top-level universally quantified axiom: the smallest
+// uninterpreted application that mentions every bound variable (keeps E-matching from looping).
+func withAutoPattern(t *smt.Term) *smt.Term {
+	if t.Op != "forall" || len(t.Pats) > 0 {
+		return t
+	}
+	var best *smt.Term
+	bestSize := 1 << 30
+	var size func(u *smt.Term) int
+	size = func(u *smt.Term) int {
+		n := 1
+		for _, a := range u.Args {
+			n += size(a)
+		}
+		return n
+	}
+	mentionsAll := func(u *smt.Term) bool {
+		for _, q := range t.Quant {
+			if !mentions(u, map[*smt.Term]bool{q: true}) {
+				return false
+			}
+		}
+		return true
+	}
+	var walk func(u *smt.Term)
+	walk = func(u *smt.Term) {
+		if u.Op == "app" && mentionsAll(u) {
+			if sz := size(u); sz < bestSize {
+				best, bestSize = u, sz
+			}
+		}
+		for _, a := range u.Args {
+			walk(a)
+		}
+	}
+	walk(t.Args[0])
+	if best == nil {
+		return t
+	}
+	return smt.Forall(t.Quant, t.Args[0], []*smt.Term{best})
+}
+
+// AxiomSymbols returns the uninterpreted function names an axiom mentions.
+func AxiomSymbols(t *smt.Term) map[string]bool {
+	out := map[string]bool{}
+	seen := map[int]bool{}
+	var walk func(u *smt.Term)
+	walk = func(u *smt.Term) {
+		if seen[u.ID()] {
+			return
+		}
+		seen[u.ID()] = true
+		if u.Op == "app" {
+			out[u.Name] = true
+		}
+		for _, a := range u.Args {
+			walk(a)
+		}
+	}
+	walk(t)
+	return out
+}
